@@ -7,7 +7,7 @@ import random
 from vf import cluster as C
 from vf import txn_sim as T
 
-ALPHABET = ["begin", "send:0", "send:1", "burst:0+1:2", "offsets:7", "commit", "abort", "ctx_ok:0", "ctx_exc:0", "ctx_slow:1", "ctx_slow_exc:1"]
+ALPHABET = ["begin", "send:0", "send:1", "burst:0+1:2", "offsets:7", "offsets:9:multi", "commit", "abort", "ctx_ok:0", "ctx_exc:0", "ctx_slow:1", "ctx_slow_exc:1"]
 
 
 def c16_faults():
@@ -57,7 +57,7 @@ def c07_program(rng: random.Random, tier="quick"):
                 kind = "spray" if rng.random() < 0.25 else "burst"
                 prog.append(f"{kind}:{spread}:{rng.choice([2, 5, 12, 30] if kind == 'spray' else [2, 5, 12])}")
             elif r < 0.85:
-                prog.append(f"offsets:{rng.randint(1, 500)}")
+                prog.append(f"offsets:{rng.randint(1, 500)}" + (":multi" if rng.random() < 0.3 else ""))
             elif r < 0.95:
                 prog.append(f"sleep:{rng.choice([0.01, 0.2, 1.0])}")
             else:
